@@ -106,3 +106,5 @@ SPEC["C07"] = dict(params_q={"D": 1, "L": 1, "S": 1, "B": 1, "resN": 8, "json": 
                    f_pattern="f09*", bounds={"request": "arbitrary request value (its # fields shape the result), sum of lengths <= B", "result": "arbitrary result bytes of symbolic length <= resN"},
                    outside=OUT_COMMON + ["functions of schemas other than schemas/f/f09_functions.tl and the thorough-tier repository schemas"], r_thorough=R_QUICK,
                    assumptions=["JSON numbers of symbolic results go through the decimal contract; typed path = generated ReadResultX into the typed result + WriteResultY"])
+SPEC["C43"]["extra_runs"] = [dict(key="f03", schema="f03_outermask.tl", props=["C43"], regex="^VerifC43x_", params_q={"D": 1, "L": 1, "S": 1, "B": 1}, params_t={"D": 1, "L": 2, "S": 1, "B": 2}, libs=["zz_verif_c43_f03.go"], only=["F03Outer"], wall_q="60s", wall_t="300s",
+                                  text="typed case f03.outer/f03.inner: accessors of fields under an EXTERNAL field mask, called with the owner's mask and with a nil mask pointer")]
